@@ -338,6 +338,42 @@ class Ctx:
                 self.last_info.extend(k0 + i for i in parse_nat_list(vals[need]))
         return (badidx, bad2idx) if alt_fn else badidx
 
+    def coq_check_codes(self, tag, header, case_terms, code_fn, shard=400, max_bytes=60000, timeout=COQC_TIMEOUT):
+        """Like coq_check_cases, but `code_fn case : nat` is a bit mask of failed sub-checks (0 = all passed), computed once
+        per case.  Returns the list of codes (one per case).  Certificate per shard: `Lemma corr : bad = []`."""
+        files, spans = [], []
+        k = 0
+        while k < len(case_terms):
+            j, size = k, 0
+            while j < len(case_terms) and j - k < shard and (size < max_bytes or j == k):
+                size += len(case_terms[j])
+                j += 1
+            body = [header, "Definition cases := " + coq_list(case_terms[k:j]) + ".",
+                    f"Definition codes : list nat := Eval vm_compute in (map ({code_fn}) cases).",
+                    "Eval vm_compute in codes.",
+                    "Definition bad : list nat := Eval vm_compute in (failing_idx (map (Nat.eqb 0) codes)).",
+                    "Lemma corr : bad = []. Proof. reflexivity. Qed."]
+            files.append((f"{tag}_{len(files)}", "\n".join(body) + "\n"))
+            spans.append((k, j))
+            k = j
+        with ThreadPoolExecutor(max_workers=NPROC) as ex:
+            res = list(ex.map(lambda nt: self.coq_eval(nt[0], nt[1], timeout), files))
+        codes = []
+        for (rc, out), (k0, k1), (nm, _) in zip(res, spans, files):
+            self.case_lemmas += 1
+            vals = parse_evals(out)
+            if not vals:
+                raise CoqRunError(f"case file {nm} produced no result:\n{out[-2000:]}")
+            lst = parse_nat_list(vals[0])
+            if len(lst) != k1 - k0:
+                raise CoqRunError(f"case file {nm}: {len(lst)} codes for {k1 - k0} cases")
+            if rc == 0 and not any(lst):
+                self.case_lemmas_ok += 1
+            elif not any(lst):
+                raise CoqRunError(f"case file {nm} failed:\n{out[-2000:]}")
+            codes.extend(lst)
+        return codes
+
     # -- verdict --------------------------------------------------------------------------------
     def finish(self, level="proof", rule="", assumptions=None, trusted_extra=None, exhaustive=None, extra_cov=None):
         known = load_known(self.prop)
